@@ -127,7 +127,8 @@ func GenMinterCfg(t *rapid.T, maxPeriods int, maxSteps int64, maxDec int) Minter
 	default:
 		cfg.StartOffNs = genDuration(t, "startAfter")
 	}
-	cfg.FirstID = uint32(rapid.IntRange(1, 3).Draw(t, "firstId"))
+	// (sequence ids are stored as 4-byte keys: ids around 2^8 and 2^16 sit on the byte boundaries of that encoding)
+	cfg.FirstID = []uint32{1, 1, 2, 3, 1, 2, 3, 254, 255, 256, 65535}[rapid.IntRange(0, 10).Draw(t, "firstId")]
 	for i := 0; i < n; i++ {
 		last := i == n-1
 		lbl := fmt.Sprintf("p%d", i)
